@@ -1080,8 +1080,8 @@ pub fn run(ctx: &Ctx) {
     ctx.assume("formulas the parser rejects (ParseError nodes) are not asserted");
     let avoid = avoid_from(ctx);
     let n = match ctx.tier {
-        Tier::Quick => 4000,
-        Tier::Thorough => 100000,
+        Tier::Quick => 16000,
+        Tier::Thorough => 400000,
     };
     let enc = |c: &Case| serde_json::to_value(c).unwrap_or(Value::Null);
     ctx.campaign("values", n, || values_strategy(avoid.clone()), check, enc);
